@@ -288,6 +288,7 @@ type refGlobT struct {
 	glob  string
 	types []string
 	wf    bool
+	exact bool // schema scope: the element stands for the schema itself (name equality, no glob, no selector)
 }
 
 func (g refGlobT) admits(typ string) bool {
@@ -302,6 +303,9 @@ func (g refGlobT) admits(typ string) bool {
 	return false
 }
 func (g refGlobT) sel(typ, name string) bool {
+	if g.exact {
+		return typ == "schema" && name == g.glob
+	}
 	if !g.admits(typ) || !g.wf {
 		return false
 	}
@@ -325,11 +329,30 @@ func refChains(pats []string) (chains []refChain, splitOK bool, anyMalformed boo
 			if !wf {
 				anyMalformed = true
 			}
-			ch = append(ch, refGlobT{g, ts, wf})
+			ch = append(ch, refGlobT{glob: g, types: ts, wf: wf})
 		}
 		chains = append(chains, ch)
 	}
 	return
+}
+
+// refScopeChains is the documented scope rule (sql/schema/inspect.go, InspectOptions.Exclude): at
+// schema scope the FIRST component of a pattern names a table ("t", "t.c", "*.c"), whatever the
+// schema is called, and only resources of that schema are concerned.  The chains are built from
+// the patterns as given (never from a "<schema>.<pattern>" string): the schema element is an
+// exact-name element put in front.  tooMany: a pattern with more components than the scope has levels.
+func refScopeChains(schemaName string, pats []string) (chains []refChain, splitOK, anyMalformed, tooMany bool) {
+	rel, ok, mal := refChains(pats)
+	if !ok {
+		return nil, false, false, false
+	}
+	for _, ch := range rel {
+		if len(ch) > 2 {
+			tooMany = true
+		}
+		chains = append(chains, append(refChain{{glob: schemaName, wf: true, exact: true}}, ch...))
+	}
+	return chains, true, mal, tooMany
 }
 
 // ---- one case
@@ -359,19 +382,24 @@ func runExCase(w *out.W, c exCase) {
 	ct.WriteString(" " + realmText(c.realm))
 	r := build(c.realm, c.linkI, c.linkF)
 	before := showRealm(r)
-	var err error
-	pats := c.pats
-	if c.op == "R" {
-		_, err = schema.ExcludeRealm(r, c.pats)
-	} else {
+	// the caller's pattern slice is a value the caller keeps and passes again (InspectOptions.Exclude of a
+	// long-lived service): it has spare capacity holding sentinels, so a callee that appends to it, sorts it
+	// or qualifies it in place is seen
+	given := make([]string, len(c.pats), len(c.pats)+2)
+	copy(given, c.pats)
+	given[:cap(given)][len(c.pats)], given[:cap(given)][len(c.pats)+1] = "sentinel.a", "sentinel.b"
+	wantBacking := strings.Join(append(append([]string{}, c.pats...), "sentinel.a", "sentinel.b"), "\x00")
+	call := func(r *schema.Realm) error {
+		if c.op == "R" {
+			_, err := schema.ExcludeRealm(r, given)
+			return err
+		}
 		var k int
 		fmt.Sscanf(c.op, "S%d", &k)
-		_, err = schema.ExcludeSchema(r.Schemas[k], c.pats)
-		pats = nil
-		for _, p := range c.pats {
-			pats = append(pats, c.realm[k].name+"."+p)
-		}
+		_, err := schema.ExcludeSchema(r.Schemas[k], given)
+		return err
 	}
+	err := call(r)
 	obs := "ok " + showRealm(r)
 	if err != nil {
 		obs = "err=" + errEnum(err)
@@ -386,25 +414,58 @@ func runExCase(w *out.W, c exCase) {
 		w.Count("result:ok-unchanged")
 	}
 	// ------------------------------------------------------------ oracle
-	if len(pats) == 0 {
+	// (a) the pattern slice is an input: unchanged after the call, and a second realm filtered with the
+	// very same slice value gives the same result; filtering the filtered realm again changes nothing
+	if got := strings.Join(given[:cap(given)], "\x00"); got != wantBacking || len(given) != len(c.pats) {
+		w.Violation(id, "exclude-patterns-rewritten", fmt.Sprintf("%s rewrote the caller's pattern slice: %q (with spare capacity) became %q", c.op, strings.Split(wantBacking, "\x00"), given[:cap(given)]))
+	}
+	{
+		r2 := build(c.realm, c.linkI, c.linkF)
+		err2 := call(r2)
+		if errEnum(err2) != errEnum(err) || err == nil && showRealm(r2) != showRealm(r) {
+			w.Violation(id, "exclude-reuse-differs", fmt.Sprintf("%s with the same pattern slice %q on an equal realm: first call %s, second call %s %v", c.op, c.pats, obs, showRealm(r2), err2))
+		}
+		if err == nil {
+			first := showRealm(r)
+			if err3 := call(r); err3 != nil || showRealm(r) != first {
+				w.Violation(id, "exclude-not-idempotent", fmt.Sprintf("%s with %q applied to its own result: %s became %s %v", c.op, c.pats, first, showRealm(r), err3))
+			}
+			w.Count("reuse:same-slice-second-realm+idempotence")
+		}
+	}
+	if len(c.pats) == 0 {
 		if err != nil || showRealm(r) != before {
 			w.Violation(id, "exclude-no-pattern-changes", "no pattern given but the realm changed or an error was returned")
 		}
 		return
 	}
-	chains, splitOK, anyMalformed := refChains(pats)
-	tooMany := false
-	for _, ch := range chains {
-		if len(ch) > 3 {
-			tooMany = true
+	// (b) which resources are excluded: the reference chains.  Realm scope: pattern components are
+	// schema.table.child by position.  Schema scope: table.child, for the resources of THAT schema only
+	// (refScopeChains; never derived from a "<schema>.<pattern>" string).
+	var (
+		chains                         []refChain
+		splitOK, anyMalformed, tooMany bool
+		pats                           = c.pats
+	)
+	if c.op == "R" {
+		chains, splitOK, anyMalformed = refChains(c.pats)
+		for _, ch := range chains {
+			if len(ch) > 3 {
+				tooMany = true
+			}
 		}
+	} else {
+		var k int
+		fmt.Sscanf(c.op, "S%d", &k)
+		chains, splitOK, anyMalformed, tooMany = refScopeChains(c.realm[k].name, c.pats)
+		pats = append([]string{"(scope of schema " + c.realm[k].name + ")"}, c.pats...)
 	}
 	if err != nil {
 		switch {
 		case !splitOK, tooMany && len(c.realm) > 0, anyMalformed:
 			w.Count("oracle:error-justified")
 		default:
-			w.Violation(id, "exclude-error-unexpected", fmt.Sprintf("patterns %q are well formed but ExcludeRealm returned %v", pats, err))
+			w.Violation(id, "exclude-error-unexpected", fmt.Sprintf("patterns %q are well formed but %s returned %v", pats, c.op, err))
 		}
 		return
 	}
@@ -535,6 +596,23 @@ var r0 = []mSchema{
 	{"s2", []mTable{{"t1", []string{"c1"}, nil, []mIdx{{"i1", []string{"c1"}}}, nil, nil}}},
 }
 
+// rC: every name is used at every level ("main" is a schema, a table, a column, an index, a foreign key
+// and a check; so are "secret" and "t1"), tables of the same name live in different schemas.
+var rC = []mSchema{
+	{"main", []mTable{
+		{"main", []string{"main", "secret", "t1"}, []string{"main"},
+			[]mIdx{{"secret", []string{"secret"}}, {"t1", []string{"main"}}, {"main", []string{"t1", ""}}},
+			[]mFk{{"main", []string{"main"}}, {"secret", []string{"secret"}}}, []string{"main", "secret", "t1"}},
+		{"secret", []string{"main", "c1"}, nil, []mIdx{{"c1", []string{"main"}}, {"secret", []string{"c1"}}}, nil, []string{"secret"}},
+		{"t1", []string{"t1", "secret"}, nil, []mIdx{{"main", []string{"t1"}}}, []mFk{{"t1", []string{"t1"}}}, nil},
+	}},
+	{"secret", []mTable{
+		{"main", []string{"secret", "main"}, nil, []mIdx{{"secret", []string{"main"}}}, nil, nil},
+		{"secret", []string{"secret"}, nil, nil, nil, []string{"secret"}},
+	}},
+	{"t1", []mTable{{"t1", []string{"t1", "main"}, []string{"t1"}, []mIdx{{"t1", []string{"t1"}}}, []mFk{{"main", []string{"main"}}}, []string{"t1"}}}},
+}
+
 func runExclude(w *out.W, tier string) {
 	w.Rule = "non-trivial = ExcludeRealm returned no error and changed the realm; keyed by (patterns, realm)"
 	// ---- exhaustive single patterns on the fixed realm r0
@@ -600,8 +678,54 @@ func runExclude(w *out.W, tier string) {
 	}
 	runExCase(w, exCase{"R", true, true, nil, r0})
 	runExCase(w, exCase{"S0", true, true, nil, r0})
+	// ---- names that coincide across levels (round 3): realm rC has a schema, a table, a column, an index, a
+	// foreign key and a check that are all called "main" (SQLite binds every connection to schema "main"),
+	// the same for "secret" and "t1".  Every 1-, 2- and 3-component pattern over the atoms below, with the
+	// selectors that can tell the levels apart, at realm scope; every 1- and 2-component pattern (and a
+	// 3-component sample: too many parts) at the scope of each schema.
+	cA := []string{"main", "secret", "t1", "*", "m*"}
+	var c0, c1, c2 []string
+	for _, a := range cA {
+		for _, sl := range []string{"", "[type=schema]", "[type=table]"} {
+			c0 = append(c0, a+sl)
+		}
+		for _, sl := range []string{"", "[type=table]", "[type=column]"} {
+			c1 = append(c1, a+sl)
+		}
+		for _, sl := range []string{"", "[type=column]", "[type=index]", "[type=fk]", "[type=check]", "[type=column|index]", "[type=table]"} {
+			c2 = append(c2, a+sl)
+		}
+	}
+	nCoin := 0
+	coin := func(c exCase) { nCoin++; runExCase(w, c) }
+	for _, x := range c0 {
+		coin(exCase{"R", true, true, []string{x}, rC})
+		for _, y := range c1 {
+			coin(exCase{"R", true, true, []string{x + "." + y}, rC})
+			for _, z := range c2 {
+				coin(exCase{"R", true, true, []string{x + "." + y + "." + z}, rC})
+			}
+		}
+	}
+	for k := range rC {
+		op := fmt.Sprintf("S%d", k)
+		for _, y := range append(c0, c1...) { // at schema scope the first component is a table: table selectors and (never matching) schema/column ones
+			coin(exCase{op, true, true, []string{y}, rC})
+			for _, z := range c2 {
+				coin(exCase{op, true, true, []string{y + "." + z}, rC})
+			}
+		}
+		for _, p := range []string{"main.main.main", "main.secret.t1", "*.*.*"} {
+			coin(exCase{op, true, true, []string{p}, rC})
+		}
+		// the forms the documentation lists, as a list and unlinked (the inspected state of SQLite)
+		coin(exCase{op, false, true, []string{"main", "main.secret"}, rC})
+		coin(exCase{op, false, true, []string{"main.*[type=index]", "secret"}, rC})
+		coin(exCase{op, false, false, []string{"main.*", "*.main"}, rC})
+	}
+	w.Set("coincide_cases", nCoin)
 	w.Exhaust = true
-	w.Set("exhaustive_bound", "every pattern schema-atom[sel].table-atom[sel].child-atom[sel] over 5x3, 5x3, 9x12 atoms/selectors on a fixed realm (2 schemas, 3 tables, columns/pk/indexes/fks/checks); all ordered pairs (thorough: triples) of 12 patterns")
+	w.Set("exhaustive_bound", "every pattern schema-atom[sel].table-atom[sel].child-atom[sel] over 5x3, 5x3, 9x12 atoms/selectors on a fixed realm (2 schemas, 3 tables, columns/pk/indexes/fks/checks); all ordered pairs (thorough: triples) of 12 patterns; realm with equal names across levels (main/secret/t1 as schema, table, column, index, fk, check): every pattern over 5 atoms x {3,3,7} selectors with 1-3 components at realm scope and 1-2 components at the scope of each of its 3 schemas")
 	// ---- seeded random realms x pattern lists
 	r := rng.FromEnv(0xE1C)
 	sn := []string{"s", "s1", "main", "ab", "a-b"}
